@@ -9,7 +9,7 @@
    No proofs here.  The model describes /repo after the fixes 0fedb86, 222ce93, 2cf0b5a,
    cafb4ab, ff837ac (delete_transactions rebuilds utxo_map from the transactions that are
    still pooled; add_block_transactions_back re-inserts through add_transaction) and the
-   producer-side fixes f62222f, e0300b2, 1214e31, 9879695, ffb4da9, bb88717, df3ca14 (see bundle_block and
+   producer-side fixes f62222f, e0300b2, 1214e31, 9879695, ffb4da9, bb88717, df3ca14, 716c212 (see bundle_block and
    remove_block_transactions below).
 
    Abstraction.  Signatures, utxoset keys and hashes are interned numbers.  A
@@ -142,8 +142,14 @@ Definition producer_only (t : tx) : bool :=
 Definition foreign_stake (t : tx) : bool :=
   match t_type t with TBlockStake => negb (t_own t) | _ => false end.
 
+(* issuance transactions are taken only while there is no chain (716c212: no block stored and
+   no genesis block id set, i.e. the id of the latest block is 0) *)
+Definition late_issuance (ledger : chain) (t : tx) : bool :=
+  match t_type t with TIssuance => negb (c_latest ledger =? 0) | _ => false end.
+
 Definition add_transaction_if_validates (ledger : chain) (p : pool) (t : tx) : res pool :=
   if producer_only t then Ok p
+  else if late_issuance ledger t then Ok p
   else if foreign_stake t then Ok p
   else if tx_validate ledger t then add_transaction p t else Ok p.
 
